@@ -264,10 +264,16 @@ impl PackageSpecifiers {
     nv: &PackageNv,
     dep: JsrDepPackageReq,
   ) {
+    // the package may not have been registered through a version manifest
+    // (e.g. a loader answering a non-registry request with a final
+    // specifier inside the registry), so don't assume the entry exists
     self
       .packages
-      .get_mut(nv)
-      .unwrap()
+      .entry(nv.clone())
+      .or_insert_with(|| PackageNvInfo {
+        exports: Default::default(),
+        found_dependencies: Default::default(),
+      })
       .found_dependencies
       .insert(dep);
   }
